@@ -80,6 +80,8 @@ pub enum Tweak {
     Typ(u8),
     ReqMid(u16),
     ReqTok(Vec<u8>),
+    /// `clear_option(n)` on the reply: leaves an emptied entry behind
+    Clr(u16),
 }
 
 fn case_err(cx: &mut Ctx, spec: &PktSpec, code: Option<u8>, msg: &[u8], pre: &[(u16, Vec<u8>)]) {
@@ -97,6 +99,7 @@ pub fn case_err_tweaked(cx: &mut Ctx, spec: &PktSpec, code: Option<u8>, msg: &[u
             Tweak::Typ(t) => format!("typ={}", t),
             Tweak::ReqMid(m) => format!("rmid={}", m),
             Tweak::ReqTok(t) => format!("rtok={}", hex(t)),
+            Tweak::Clr(n) => format!("clr={}", n),
         });
     }
     let pretok = parts.join(",");
@@ -120,6 +123,7 @@ pub fn case_err_tweaked(cx: &mut Ctx, spec: &PktSpec, code: Option<u8>, msg: &[u
                     Tweak::Mid(m) => resp.message.header.message_id = *m,
                     Tweak::Tok(t) => resp.message.set_token(t.clone()),
                     Tweak::Typ(t) => resp.message.header.set_type(crate::tbl::mtype(*t as u64)),
+                    Tweak::Clr(n) => resp.message.clear_option(coap_lite::CoapOption::from(*n)),
                     _ => {}
                 }
             }
@@ -253,6 +257,18 @@ pub fn run(cx: &mut Ctx) {
         vec![Tweak::ReqTok(vec![5])],
         vec![Tweak::Mid(1), Tweak::Tok(vec![]), Tweak::ReqMid(2), Tweak::ReqTok(vec![1, 2, 3, 4, 5, 6, 7, 8])],
     ];
+    // emptied entries on the reply (an option set and then withdrawn with clear_option) before the error is applied
+    for typ in 0..2u8 {
+        for code in [Some(0x84u8), Some(0xA0), None] {
+            for pre in [vec![(12u16, vec![50u8])], vec![(12, vec![50]), (12, vec![60])], vec![(4, vec![1]), (12, vec![0])], vec![(14, vec![60])], vec![]] {
+                for clr in [vec![12u16], vec![4], vec![12, 14], vec![60]] {
+                    let spec = PktSpec { vtt: 0x40 | typ << 4 | 1, code: CodeSpec::Byte(2), mid: 0x2222, tok: vec![0xcc], opts: vec![(11, b"r".to_vec())], payload: vec![] };
+                    let tw: Vec<Tweak> = clr.iter().map(|n| Tweak::Clr(*n)).collect();
+                    case_err_tweaked(cx, &spec, code, b"gone", &pre, &tw);
+                }
+            }
+        }
+    }
     let cf_pre: Vec<Vec<(u16, Vec<u8>)>> = vec![vec![], vec![(12, vec![0xfd, 0xe8])], vec![(12, vec![1, 2, 3])], vec![(12, vec![0xfd, 0xe8]), (12, vec![50])], vec![(12, vec![]), (12, vec![0xff, 0xff])]];
     for typ in 0..2u8 {
         for code in [Some(0x84u8), Some(0x45), Some(0xA0), None] {
